@@ -158,6 +158,20 @@ package querylog
 //@   loop 1 invariant -1 <= i && i < len(r.qFiles) && r.qFiles == old(r.qFiles) && filesOK(r) && io.EOF == old(io.EOF) && !r.onRecord
 //@   loop 1 invariant i < len(r.qFiles) - 1 ==> err != nil
 
+// The per-request client cache answers exactly what the client finder would (the finder is a function of the identifier
+// list during one request - that is what the cache is for): the key is the pair (ClientID, address), both parts count.
+//@ declare finderSays(a string, b string) *Client
+//@ func (fieldcall) queryLog_findClient(ids []string) (c *Client, err error)
+//@   ensures err == nil ==> c == finderSays(len(ids) > 0 ? ids[0] : "", len(ids) > 1 ? ids[1] : "")
+//@   modifies nothing
+//@ define cacheSound(cache clientCache) bool = forall k clientCacheKey :: (k in cache) ==> cache[k] == finderSays(k.clientID != "" ? k.clientID : k.ip, k.clientID != "" ? k.ip : "")
+//@ func (l *queryLog) client(clientID string, ip string, cache clientCache) (c *Client, err error)
+//@   property C07
+//@   requires cache != nil && cacheSound(cache)
+//@   ensures what-the-finder-says: err == nil ==> c == finderSays(clientID != "" ? clientID : ip, clientID != "" ? ip : "")
+//@   ensures cache-stays-sound: cacheSound(cache)
+//@   modifies entries(cache)
+
 // Positioning for a page: the record at the cursor is skipped - and only that one.  When the cursor is newer than
 // everything on file (the page boundary fell on an entry that was still in memory) the reader starts at the newest
 // record on file, which belongs to the page and must not be skipped.
